@@ -8,15 +8,14 @@ OREL = "hippolyzer/lib/client/object_manager.py"
 
 
 def register_p(reg, prop):
-    reg.add_class(ClassDecl("RegionObjectsState", fields={"_object_futures": "Opaque:Dict", "_orphans": "Opaque:Dict", "localid_lookup": "Opaque:Dict"}))
+    reg.add_class(ClassDecl("RegionObjectsState", fields={"_object_futures": "Opaque:Dict", "_orphans": "Opaque:OrphanState", "localid_lookup": "Opaque:Dict", "missing_locals": "Opaque:IdSet"}))
     reg.add_fn(FnContract(
         key="hippolyzer.lib.client.object_manager:RegionObjectsState.cancel_futures", relpath=OREL,
-        qualname="RegionObjectsState.cancel_futures", cls="RegionObjectsState", prop=prop,
+        qualname="RegionObjectsState.cancel_futures", cls="RegionObjectsState", prop=prop, record_as="cancel_futures",
         params={"local_id": "Int"}, param_names=["local_id"],
         externals={"self._object_futures.items": {"returns": "Opaque:Items", "doc": "dict items view"},
                    "*.cancel": {"record_as": "cancel", "uses_recv": True, "doc": "Future.cancel"}},
-        may_raise={"ValueError": ""},
-        loops={0: {"inv": ["True"],
+        loops={0: {"inv": ["True"], "elem_sort": "Tuple[Tuple[Int,Opaque:Any],Opaque:FutList]",   # dict items: ((local id, type), futures)
                    # an entry filed under another local ID is left alone (its futures are not even visited); for an entry of this
                    # local ID the inner loop runs to the end of its list, cancelling one future per step
                    "iter_post": ["iff(fut_key[0] == local_id, defined('_n'))",
@@ -33,7 +32,8 @@ def register_p(reg, prop):
     # InvalidStateError out of the update handler. fut_done is the state of a future as Future.done() reports it.
     FD = z3.Function("fut_done", opaque_sort("Any"), z3.BoolSort())
     reg.add_spec(SpecFn("fut_done", FD, ["opaque"], "bool"))
-    reg.add_class(ClassDecl("TrackedObject", fields={"LocalID": "Int"}))
+    reg.add_class(ClassDecl("TrackedObject", fields={"LocalID": "Int", "ParentID": "Int", "ChildIDs": "IntList", "Parent": "Opt[Opaque:Any]", "PCode": "Opaque:PCode",
+                                                     "Children": "Opaque:ObjList"}))
     reg.exc_parents.setdefault("InvalidStateError", "Exception")
     reg.add_fn(FnContract(
         key="hippolyzer.lib.client.object_manager:RegionObjectsState.resolve_futures", relpath=OREL,
